@@ -626,5 +626,11 @@ mut("16-table-delete-under-rlock", "C16", "locks:SyncIntObjectChan.Delete", ("in
 mut("17-migrate-falls-back-to-dc-2", "C17", "lookup:the-number-the-server-named", ("mtproto.go", "		newIP, found := m.dclist[dcID]\n", "		if _, known := m.dclist[dcID]; !known && dcID > 5 {\n			dcID = 2\n		}\n		newIP, found := m.dclist[dcID]\n"))
 mut("18-group-check-refuses-two", "C18", "generator:g=2", ("telegram/internal/srp/2fa.go", "DhHandshake.cpp\n\n	return false\n}\n", "DhHandshake.cpp\n\n	if gInt <= 2 {\n		return true\n	}\n\n	return false\n}\n"))
 
+# --- thirteenth round -----------------------------------------------------------------------------------
+mut("08-only-small-codes-are-codes", "C08", "error-code:every-four-byte-frame", (TR, "	if len(data) == tl.WordLen {\n		code := int(int32(binary.LittleEndian.Uint32(data))) // transport error codes are signed, e.g. -404\n		return nil, ErrCode(code)\n	}\n", "	if len(data) == tl.WordLen {\n		code := int(int32(binary.LittleEndian.Uint32(data))) // transport error codes are signed, e.g. -404\n		if code > -1000 {\n			return nil, ErrCode(code)\n		}\n	}\n"))
+mut("02-pointer-allocated-before-presence-test", "C02", "decoder:absent-field-untouched", (DEC, "		field := value.Field(fieldIndex)\n", "		field := value.Field(fieldIndex)\n		if field.Kind() == reflect.Ptr && field.IsNil() {\n			field.Set(reflect.New(field.Type().Elem()))\n		}\n"))
+mut("09-rotation-arm-leaves-when-salt-known", "C09", "notify:every-path", ("mtproto.go", "	case *objects.BadServerSalt:\n		m.serverSalt = message.NewSalt\n", "	case *objects.BadServerSalt:\n		if message.NewSalt == m.serverSalt {\n			break\n		}\n		m.serverSalt = message.NewSalt\n"))
+mut("09N-rotation-arm-saves-only-when-new", "C09", None, ("mtproto.go", "		m.serverSalt = message.NewSalt\n		err := m.SaveSession()\n		check(err)\n\n		// the server rejected exactly one message", "		if message.NewSalt != m.serverSalt {\n			m.serverSalt = message.NewSalt\n			err := m.SaveSession()\n			check(err)\n		}\n\n		// the server rejected exactly one message"))
+
 json.dump(M, open('/verif/selftest/mutations.json', 'w'), indent=1, ensure_ascii=False)
 print(len(M), "mutations")
